@@ -877,12 +877,15 @@ class Builder:
             if b["m"] == "contains" and len(b["args"]) == 1 and isvar(b["args"][0]) and recv_["k"] == "lit" and recv_["t"] == "str":
                 return cs_in(recv_["v"])
             if isvar(b["recv"]) and not b["args"]:
-                if b["m"] in ("is_alpha", "is_ascii_alphabetic"):
-                    return cs_in(ALPHA)
-                if b["m"] in ("is_ascii_digit", "is_dec_digit"):
-                    return cs_in(DIGIT)
-                if b["m"] == "is_ascii_whitespace":
-                    return cs_in(" \t\n\r\x0c")
+                cs_ = CHAR_CLASS.get(b["m"])
+                if cs_ is not None:
+                    return cs_in(cs_)
+            return None
+        if k == "call" and b["f"]["k"] == "path" and len(b["args"]) == 1 and isvar(b["args"][0]):
+            # UFCS: AsChar::is_space(c), char::is_ascii_digit(&c)
+            segs = b["f"]["segs"]
+            if len(segs) >= 2 and segs[-2] in ("AsChar", "char") and segs[-1] in CHAR_CLASS:
+                return cs_in(CHAR_CLASS[segs[-1]])
             return None
         if k == "macro" and b["name"] == "matches" and "pat" in b and isvar(b["e"]) and b["guard"] is None:
             chars = self._char_pat(b["pat"])
@@ -906,6 +909,27 @@ class Builder:
 
 
 # ------------------------------------------------------------------ generic analyses over the IR
+# character-class predicates of std `char` and winnow's `AsChar`, as the finite sets they denote on ASCII (the grammar's
+# alphabet; non-ASCII characters satisfy none of the ascii_* / AsChar predicates)
+CHAR_CLASS = {
+    "is_alpha": ALPHA,
+    "is_ascii_alphabetic": ALPHA,
+    "is_ascii_digit": DIGIT,
+    "is_dec_digit": DIGIT,
+    "is_ascii_whitespace": " \t\n\r\x0c",
+    "is_space": " \t",  # winnow AsChar::is_space: space or tab only
+    "is_newline": "\n",  # winnow AsChar::is_newline
+    "is_alphanum": ALPHA | DIGIT,
+    "is_ascii_alphanumeric": ALPHA | DIGIT,
+    "is_hex_digit": DIGIT | frozenset("abcdefABCDEF"),
+    "is_ascii_hexdigit": DIGIT | frozenset("abcdefABCDEF"),
+    "is_oct_digit": "01234567",
+    "is_ascii_uppercase": "".join(c for c in ALPHA if c.isupper()),
+    "is_ascii_lowercase": "".join(c for c in ALPHA if c.islower()),
+    "is_ascii_punctuation": "!\"#$%&'()*+,-./:;<=>?@[\\]^_`{|}~",
+}
+
+
 class Grammar:
     """Resolves refs lazily and offers nullability / FIRST / language helpers."""
 
